@@ -5,6 +5,7 @@ package ecs
 func init() {
 	vRegister("HC17_DumpLoad", HC17_DumpLoad)
 	vRegister("HC17_Refuse", HC17_Refuse)
+	vRegister("HC17_Large", HC17_Large)
 }
 
 const hDumpH = 8
@@ -217,5 +218,51 @@ func HC17_Refuse() {
 		vAssert(pan && msg == hLockMsg, "loading into a locked world is refused")
 		q.Close()
 	}
+	vReach("end")
+}
+
+// HC17_Large: dumps with more entity slots than one 64-bit word of the
+// receiving world's internal bit sets, into worlds of several capacity increments.
+func HC17_Large() {
+	n := [3]int{64, 65, 130}[vChoice("n", 3)]
+	src := NewWorld(NewConfig().WithCapacityIncrement(16))
+	NewBuilder(&src).NewBatch(n)
+	var hs [140]Entity
+	m := All()
+	q := src.Query(&m)
+	k := 0
+	for q.Next() {
+		hs[k] = q.Entity()
+		k++
+	}
+	vAssert(k == n, "batch creation")
+	src.RemoveEntity(hs[1])
+	src.RemoveEntity(hs[n-2])
+	d := src.DumpEntities()
+	dst := NewWorld(NewConfig().WithCapacityIncrement([3]int{1, 7, 128}[vChoice("capinc", 3)]))
+	if vChoice("reset", 2) == 1 {
+		dst.NewEntity()
+		dst.Reset()
+	}
+	dst.LoadEntities(&d)
+	for i := 0; i < n; i++ {
+		vAssert(dst.Alive(hs[i]) == src.Alive(hs[i]), "every handle gets the same Alive answer after loading")
+	}
+	// the same future in both worlds, touching the highest ids
+	r1, r2 := ComponentID[hR1](&src), ComponentID[hR1](&dst)
+	for _, w := range [2]*World{&src, &dst} {
+		w.RemoveEntity(hs[n-1])
+	}
+	a, b := src.NewEntity(), dst.NewEntity()
+	vAssert(a == b, "original and loaded worlds issue identical handles")
+	c1 := NewBuilder(&src, r1).WithRelation(r1).New(hs[n-3])
+	c2 := NewBuilder(&dst, r2).WithRelation(r2).New(hs[n-3])
+	vAssert(c1 == c2, "original and loaded worlds issue identical handles")
+	src.RemoveEntity(c1)
+	dst.RemoveEntity(c2)
+	src.RemoveEntity(hs[n-3]) // a relation target with a high id dies: its empty table is retired
+	dst.RemoveEntity(hs[n-3])
+	e1, e2 := src.DumpEntities(), dst.DumpEntities()
+	dumpsEqual(&e1, &e2, true)
 	vReach("end")
 }
